@@ -95,10 +95,14 @@ impl ListenerShared {
 
 	#[must_use]
 	pub fn is_marked_for_removal(&self) -> bool {
+		#[cfg(feature = "verif-hooks")]
+		crate::verif::sync_point("listener.removed.load");
 		self.removed.load(Ordering::SeqCst)
 	}
 
 	pub fn mark_for_removal(&self) {
+		#[cfg(feature = "verif-hooks")]
+		crate::verif::sync_point("listener.removed.store");
 		self.removed.store(true, Ordering::SeqCst);
 	}
 }
